@@ -177,13 +177,16 @@ Record cstate := mkC {
   t_h : option nat;          (* _h *)
   t_hinv : option nat        (* _h_inv  — cleared by clear_tensors too, base.py:430 *)
 }.
+Inductive ckind : Type := KCart | KDic.     (* CartesianCoordinates / DIC (incl. DICWithConstraints) *)
 Inductive cop : Type :=
-| OSetItem            (* c[k] = v                base.py:382-391: clear_tensors, then set *)
-| OAdd | OSub         (* c = c + d / c = c - d   base.py:393-413: copy, clear, iadd; name rebound *)
+| OSetItem            (* c[k] = v                base.py:382-391: clear_tensors, then the write *)
+| OAdd | OSub         (* c = c + d / c = c - d   base.py:393-413: copy; clear_tensors; iadd; name rebound *)
 | OAddDiscard         (* _ = c + d : c itself is untouched *)
 | OIAdd | OISub       (* c += d / c -= d         base.py:415-422: clear self, then __add__; name rebound *)
+| OIaddCall           (* c.iadd(d) called directly (no dunder): the primitive in-place step *)
 | OClear              (* c.clear_tensors() *)
-| OCopy               (* c = c.copy()  (deepcopy keeps every attribute) *)
+| OCopy               (* c = c.copy(): a new object carrying the same tensors (the attributes are taken over
+                         by reference through __array_finalize__; the machine only tracks the tags) *)
 | OSetE (some : bool) (* c.e = value / None *)
 | OSetG (some : bool) (* c.g = value / None   (= update_g_from_cart_g for Cartesian coordinates) *)
 | OSetH (some : bool) (* c.h = value / None   (= update_h_from_cart_h) *)
@@ -193,12 +196,25 @@ Inductive cop : Type :=
 
 (* base.py:430  self._e, self._g, self._h, self._h_inv = None, None, None, None *)
 Definition cleared (s : cstate) : cstate := mkC (ver s) None None None None.
-Definition changed (s : cstate) : cstate := mkC (S (ver s)) None None None None.
+(* the bare write of new coordinate values (ndarray.__setitem__ / ndarray.__iadd__): tensors untouched *)
+Definition moved (s : cstate) : cstate := mkC (S (ver s)) (t_e s) (t_g s) (t_h s) (t_hinv s).
+(* base.py:390-391  __setitem__ = clear_tensors(); super().__setitem__() *)
+Definition changed (s : cstate) : cstate := moved (cleared s).
 Definition tag (s : cstate) (b : bool) : option nat := if b then Some (ver s) else None.
+(* the primitive in-place step `iadd`:
+     CartesianCoordinates.iadd = np.ndarray.__iadd__(self, value)   cartesian.py:79-80  (NO clear_tensors)
+     DIC.iadd ends with  self[:] = s_k  -> __setitem__               dic.py:294 (converged and fallback branch alike) *)
+Definition raw_iadd (k : ckind) (s : cstate) : cstate :=
+  match k with KCart => moved s | KDic => changed s end.
+(* base.py:405-407  new = self.copy(); new.clear_tensors(); new.iadd(other) — composed, not postulated *)
+Definition cadd (k : ckind) (s : cstate) : cstate := raw_iadd k (cleared s).
 
-Definition cstep (s : cstate) (o : cop) : cstate :=
+Definition cstep (k : ckind) (s : cstate) (o : cop) : cstate :=
   match o with
-  | OSetItem | OAdd | OSub | OIAdd | OISub => changed s
+  | OSetItem => changed s
+  | OAdd | OSub => cadd k s
+  | OIAdd | OISub => cadd k (cleared s)          (* base.py:417-418: self.clear_tensors(); return self.__add__(other) *)
+  | OIaddCall => raw_iadd k s
   | OAddDiscard | OCopy => s
   | OClear => cleared s
   | OSetE b => mkC (ver s) (tag s b) (t_g s) (t_h s) (t_hinv s)
@@ -212,9 +228,13 @@ Definition cstep (s : cstate) (o : cop) : cstate :=
                 | None, Some t => mkC (ver s) (t_e s) (t_g s) (t_h s) (Some t)
                 | _, _ => s end
   end.
-Definition crun (s : cstate) (ops : list cop) : cstate := fold_left cstep ops s.
+Definition crun (k : ckind) (s : cstate) (ops : list cop) : cstate := fold_left (cstep k) ops s.
+(* the coordinate changes made through the operators of OptCoordinates *)
 Definition is_change (o : cop) : bool :=
   match o with OSetItem | OAdd | OSub | OIAdd | OISub => true | _ => false end.
+(* operations after which freshness is preserved: everything except a direct Cartesian iadd call *)
+Definition keeps_fresh (k : ckind) (o : cop) : bool :=
+  match k, o with KCart, OIaddCall => false | _, _ => true end.
 (* what the public getter `c.h` returns (base.py:108-130) *)
 Definition obs_h (s : cstate) : option nat :=
   match t_h s with Some t => Some t | None => t_hinv s end.
